@@ -17,6 +17,7 @@ import (
 	"github.com/wi1dcard/fingerproxy/pkg/hack"
 	"pgregory.net/rapid"
 
+	"verifharness/rig"
 	"verifharness/vstat"
 )
 
@@ -33,8 +34,8 @@ type Script struct {
 	EndErr  int    `json:"end_err"`  // 0: io.EOF, 1: ECONNRESET-like error, 2: timeout error
 	// DataWithErr: the connection returns its last bytes together with the final error in one Read (n > 0 and
 	// err != nil, which the io.Reader contract allows and TLS-in-TLS or buffered conns do)
-	DataWithErr bool `json:"data_with_err,omitempty"`
-	Probes  []int  `json:"probes"`   // indices of reads after which GetClientHello is called early
+	DataWithErr bool  `json:"data_with_err,omitempty"`
+	Probes      []int `json:"probes"` // indices of reads after which GetClientHello is called early
 }
 
 func (s Script) stream() []byte {
@@ -64,8 +65,15 @@ type scriptedConn struct {
 	lastWithErr int // >0: the final Read returned this many bytes together with end
 }
 
+// readDelays, when set (TestSlowDelivery, inside a bubble with a fake clock), is how long the peer takes to deliver
+// the k-th read result (cyclic).
+var readDelays []time.Duration
+
 func (c *scriptedConn) Read(b []byte) (int, error) {
 	c.reads++
+	if len(readDelays) > 0 {
+		time.Sleep(readDelays[(c.reads-1)%len(readDelays)])
+	}
 	for len(c.pieces) > 0 && len(c.pieces[0]) == 0 {
 		c.pieces = c.pieces[1:]
 	}
@@ -465,6 +473,57 @@ func TestHijack(t *testing.T) {
 				col.Case(canon(s), inf.nontrivial, sample(s, inf), inf.classes...)
 			}
 			return v
+		},
+	})
+}
+
+// TestSlowDelivery: the same scripts, delivered slowly. The statement quantifies over "how the network delivered the
+// stream"; how long the pieces took is part of that (a connection without a handshake timeout may take any time).
+// Runs under testing/synctest, so an hour between two reads costs nothing.
+type SlowScript struct {
+	S        Script  `json:"s"`
+	DelaysMs []int64 `json:"delays_ms"`
+}
+
+var colSlow = vstat.New("C04", "c04.slow")
+
+func TestSlowDelivery(t *testing.T) {
+	colSlow.Mandatory("accept", "pause>10s-inside-the-first-record", "cut-in-header")
+	vstat.Run(t, vstat.Spec[SlowScript]{
+		Col: colSlow, Quick: 1500, Thorough: 60000,
+		Gen: func(t *rapid.T) SlowScript {
+			return SlowScript{S: genScript(t), DelaysMs: rapid.SliceOfN(rapid.SampledFrom([]int64{0, 0, 1, 999, 5000, 10001, 31000, 3600000}), 1, 5).Draw(t, "delays")}
+		},
+		Exec: func(s SlowScript) *vstat.Violation {
+			var v *vstat.Violation
+			var inf info
+			msg := rig.Bubble(t, func() {
+				readDelays = nil
+				for _, d := range s.DelaysMs {
+					readDelays = append(readDelays, time.Duration(d)*time.Millisecond)
+				}
+				defer func() { readDelays = nil }()
+				v, inf = execScript(s.S)
+			})
+			if msg != "" {
+				return vstat.Violf("slow|panic", "%s", msg)
+			}
+			if v != nil {
+				v.Sig = "slow:" + v.Sig
+				return v
+			}
+			cl := append([]string{}, inf.classes...)
+			long := false
+			for i, d := range s.DelaysMs {
+				if d > 10000 && i > 0 && i < len(s.S.Cuts) {
+					long = true
+				}
+			}
+			if long {
+				cl = append(cl, "pause>10s-inside-the-first-record")
+			}
+			colSlow.Case(canon(s.S)+fmt.Sprint(s.DelaysMs), inf.nontrivial && long, map[string]any{"script": sample(s.S, inf), "delays_ms": s.DelaysMs}, cl...)
+			return nil
 		},
 	})
 }
